@@ -10,6 +10,10 @@ import tempfile
 from . import core, realrun, sched
 
 
+class BaseBoom(BaseException):
+    """what KeyboardInterrupt / SystemExit are: not an Exception"""
+
+
 class Boom(Exception):
     pass
 
@@ -404,13 +408,14 @@ def run_fence(owner, method, deviations=None, after=False, owner_raises=False):
         return os.path.join(root, rel) if rel else root
     s = sched.Scheduler(deviations)
     ran = []
-    st = {'res': None, 'tid': None, 'gate': False, 'closed_idx': None}
+    st = {'res': None, 'tid': None, 'gate': False, 'closed_idx': None, 'owner_done_idx': None, 'call_start_idx': None}
     out = {}
     try:
         def straggler(b):
             def run():
                 if after:
                     s.block_on(lambda: st['gate'], 'gate')
+                st['call_start_idx'] = len(s.trace)
                 try:
                     st['res'] = ['ok', call_method(b, method, P, ran)]
                 except RuntimeError as e:
@@ -420,13 +425,19 @@ def run_fence(owner, method, deviations=None, after=False, owner_raises=False):
             st['tid'] = s.spawn(run, 'straggler')
 
         def owner_fn(b, *a):
-            straggler(b)
-            if owner == 'build_file':
-                with open(a[0], 'w') as fh:
-                    fh.write('o')
-            if owner_raises:
-                raise Boom('owner')
-            return 1
+            try:
+                straggler(b)
+                if owner == 'build_file':
+                    with open(a[0], 'w') as fh:
+                        fh.write('o')
+                if owner_raises == 'base':
+                    raise BaseBoom('owner')
+                if owner_raises:
+                    raise Boom('owner')
+                return 1
+            finally:
+                # the owner function ends here; the library closes its builder without any scheduling point in between
+                st['owner_done_idx'] = len(s.trace)
 
         def rootf(b):
             try:
@@ -436,7 +447,7 @@ def run_fence(owner, method, deviations=None, after=False, owner_raises=False):
                     b.subbuild('owner', owner_fn)
                 else:
                     b.build_file(P('ownerfile'), 'owner', owner_fn)
-            except Boom:
+            except (Boom, BaseBoom):
                 if owner == 'root':
                     raise
             if owner != 'root':
@@ -449,7 +460,7 @@ def run_fence(owner, method, deviations=None, after=False, owner_raises=False):
         def whole():
             try:
                 r = ['ok', FB.build(cache, 'n', rootf)]
-            except Exception as e:
+            except (Exception, BaseBoom) as e:
                 r = ['exc', type(e).__name__, str(e)[:100]]
             if st['closed_idx'] is None:
                 st['closed_idx'] = len(s.trace)
@@ -463,6 +474,10 @@ def run_fence(owner, method, deviations=None, after=False, owner_raises=False):
             except sched.Deadlock as e:
                 out['root'] = ['deadlock', str(e)[:100]]
         out['straggler'] = st['res']
+        out['owner_raises'] = owner_raises
+        # did the straggler's call begin only after the owner function had ended?
+        out['started_after_owner_ended'] = (st['call_start_idx'] is not None and st['owner_done_idx'] is not None
+                                            and st['call_start_idx'] > st['owner_done_idx'])
         # file-system calls the straggler's call made after the owner's call had returned
         out['late_obs'] = [n for (i, tid, n, _a) in s.fs_exec
                            if tid == st['tid'] and st['closed_idx'] is not None and i > st['closed_idx']]
@@ -493,8 +508,15 @@ def judge_fence(owner, method, o):
     problems = []
     res = o.get('straggler')
     complex_ = method in ('build_file', 'build_file_with_comparison', 'subbuild')
-    if o['root'][0] != 'ok':
+    # (a function that exits with a BaseException which the caller then swallows is outside the documented use: the
+    # library does not promise that such a build can be committed; only the fence is judged in that case)
+    if o['root'][0] != 'ok' and not (owner == 'root' and o.get('owner_raises')) and o.get('owner_raises') != 'base':
         problems.append({'what': 'the build did not finish normally', 'root': o['root']})
+    # (for the root builder the library sets the finished flag right after the function returns or raises, with no
+    # scheduling point in between; nested builders are closed a few steps later, which `closed_idx` accounts for)
+    if owner == 'root' and res is not None and res[0] == 'ok' and o.get('started_after_owner_ended'):
+        problems.append({'what': 'a call that began after the owner function had returned or raised was served instead of raising RuntimeError',
+                         'kind': 'served_after_owner_ended'})
     if res is None:
         problems.append({'what': 'straggler never finished'})
         return problems
